@@ -36,10 +36,11 @@ FPS_US = (10 ** -6) / 2 ** -64        # documented representation change for tim
 
 
 class Obj:
-    def __init__(self, path, kind='full', tcode=3, nv=0, props=(), strings=None):
+    def __init__(self, path, kind='full', tcode=3, nv=0, props=(), strings=None, values=None):
         self.path, self.kind, self.tcode, self.nv = path, kind, tcode, nv
         self.props = list(props)        # [(name, tcode, python value)]
         self.strings = strings          # optional explicit list (per chunk) of lists of str
+        self.values = values            # optional explicit list (per chunk) of lists of little-endian value images (bytes)
 
     def key(self):
         return (self.path, self.kind, self.tcode, self.nv, tuple(map(repr, self.props)))
@@ -325,7 +326,13 @@ def encode(segs, planter=None, index_too=True, allow_forbidden=False):
                             sum(len(v.encode('utf-8')) for v in vals) != sum(string_sizes[p]):
                         raise Invalid("string chunks of different byte size")
                 else:
-                    vals = [pl.raw(t) for _ in range(nv)]
+                    src = last_index[p][2]
+                    if getattr(src, 'values', None):
+                        vals = [bytes(v) for v in src.values[ci % len(src.values)]]
+                        if len(vals) != nv or any(len(v) != TYPES[t][1] for v in vals):
+                            raise Invalid("explicit values do not match the index")
+                    else:
+                        vals = [pl.raw(t) for _ in range(nv)]
                 pieces.append((p, t, vals))
             buf = bytearray()
             layout = []
